@@ -25,23 +25,25 @@ type CRes struct {
 }
 
 type ClientReq struct {
-	ID      uint64
-	Method  string // full method string
-	Action  string // subscribe|unsubscribe|get|call|auth|new|version|""
-	RID     string
-	CMethod string // call/auth method
-	Params  string
-	Count   int  // unsubscribe count (as the gateway must read it), 0 = invalid
-	BadCnt  bool // count parameter invalid
-	SentT   int
-	SentStep int
-	Resp    int // number of responses seen
-	RespT   int
-	Result  interface{}
-	Error   *FrameError
-	IsError bool
-	Dup     bool // id reused while still outstanding
+	ID         uint64
+	Method     string // full method string
+	Action     string // subscribe|unsubscribe|get|call|auth|new|version|""
+	RID        string
+	CMethod    string // call/auth method
+	Params     string
+	Count      int  // unsubscribe count (as the gateway must read it), 0 = invalid
+	BadCnt     bool // count parameter invalid
+	SentT      int
+	SentStep   int
+	Resp       int // number of responses seen
+	RespT      int
+	Result     interface{}
+	Error      *FrameError
+	IsError    bool
+	Dup        bool // id reused while still outstanding
 	WellFormed bool
+	ResRID     string // rid of a resource response
+	ResRootErr bool   // the root of the resource response is an error entry
 }
 
 type FrameError struct {
@@ -56,6 +58,7 @@ type CViolation struct {
 	Class string
 	Msg   string
 	T     int
+	RID   string
 }
 
 // EventRec records one event frame for the ordering monitor (C03).
@@ -81,16 +84,27 @@ type RefClient struct {
 	Closed   bool // EOF seen
 
 	// counters for classification
-	RedundantResend int
-	ResendDiffers   int
+	RedundantResend     int
+	ResendDiffers       int
 	DroppedWhileLoading int
-	Frames          int
+	Frames              int
+	LastResp            *ClientReq // request answered by the most recent frame (nil for events)
+	curRID              string     // resource the frame being processed is about
+	Handovers           []Handover
 	// Handovers: rid -> list of T at which the rid was (re)handed
 	Dropped map[string]int
 	// UnsubEvents: rid -> count of unsubscribe events
 	UnsubEvents map[string]int
 	// log of direct-count relevant happenings for C08
 	DirectLog []DirectRec
+}
+
+// Handover records that a frame carried data (or an error) for a rid.
+type Handover struct {
+	T     int
+	RID   string
+	Req   *ClientReq // response that carried it (nil: event)
+	Fresh bool       // the client did not hold it before
 }
 
 type DirectRec struct {
@@ -107,7 +121,7 @@ func newRefClient(idx int) *RefClient {
 }
 
 func (c *RefClient) viol(prop, class string, t int, format string, a ...interface{}) {
-	c.Viol = append(c.Viol, CViolation{Prop: prop, Class: class, Msg: fmt.Sprintf("c%d: ", c.Idx) + fmt.Sprintf(format, a...), T: t})
+	c.Viol = append(c.Viol, CViolation{Prop: prop, Class: class, Msg: fmt.Sprintf("c%d: ", c.Idx) + fmt.Sprintf(format, a...), T: t, RID: c.curRID})
 }
 
 func parseJSON(b []byte) (interface{}, error) {
@@ -234,6 +248,8 @@ func (c *RefClient) addResources(set map[string]interface{}, t int) {
 			return
 		}
 		for rid, data := range rs {
+			_, heldBefore := c.Held[rid]
+			c.Handovers = append(c.Handovers, Handover{T: t, RID: rid, Req: c.LastResp, Fresh: !heldBefore})
 			if old, held := c.Held[rid]; held {
 				c.RedundantResend++
 				nr := makeRes(typ, data)
@@ -378,6 +394,8 @@ func asMap(v interface{}) map[string]interface{} {
 // Frame processes one frame received from the gateway.
 func (c *RefClient) Frame(raw []byte, t int) {
 	c.Frames++
+	c.LastResp = nil
+	c.curRID = ""
 	v, err := parseJSON(raw)
 	if err != nil {
 		c.viol("C15", "malformed_frame", t, "frame is not valid JSON: %q", raw)
@@ -422,6 +440,8 @@ func (c *RefClient) response(f map[string]interface{}, idv interface{}, raw []by
 		return
 	}
 	r.RespT = t
+	c.LastResp = r
+	c.curRID = r.RID
 	if e, has := f["error"]; has && e != nil {
 		r.IsError = true
 		fe := &FrameError{}
@@ -466,10 +486,6 @@ func (c *RefClient) response(f map[string]interface{}, idv interface{}, raw []by
 		}
 		c.Direct[r.RID] -= cnt
 		c.DirectLog = append(c.DirectLog, DirectRec{T: t, RID: r.RID, Kind: "unsub-", Count: cnt, After: c.Direct[r.RID]})
-		if c.Direct[r.RID] < 0 {
-			// accounted by C08; keep the model sane
-			c.Direct[r.RID] = 0
-		}
 	case "call", "auth", "new":
 		rm := asMap(res)
 		if rm == nil {
@@ -484,6 +500,12 @@ func (c *RefClient) response(f map[string]interface{}, idv interface{}, raw []by
 		if isRes && !hasPayload {
 			c.addResources(rm, t)
 			c.Direct[rid]++
+			r.ResRID = rid
+			if em := asMap(rm["errors"]); em != nil {
+				if _, isErr := em[rid]; isErr {
+					r.ResRootErr = true
+				}
+			}
 			c.DirectLog = append(c.DirectLog, DirectRec{T: t, RID: rid, Kind: "res+", Count: 1, After: c.Direct[rid]})
 			if _, held := c.Held[rid]; !held {
 				c.viol("C02", "resource_response_without_data", t, "resource response #%d for %s leaves the client without data or error for it", id, rid)
@@ -524,6 +546,7 @@ func (c *RefClient) event(ev string, data interface{}, t int) {
 		return
 	}
 	rid, name := ev[:i], ev[i+1:]
+	c.curRID = rid
 	r, held := c.Held[rid]
 	rec := EventRec{RID: rid, Event: name, Data: data, T: t, Held: held}
 	if held {
